@@ -195,6 +195,28 @@ def run(ctx):
     r10 = ctx.rule("C10.R10", "the debug log that records a rejected attribute name writes within its buffer whatever the name's length")
     check_logging_bounded(P, r10)
 
+    # ------------------------------------------------------------ R12
+    r12 = ctx.rule("C10.R12", "attribute setters copy the caller's value into the socket only after its length was checked against the field it goes into")
+    eng12 = B.Engine(P)
+    nset = 0
+    for g in setters:
+        nset += 1
+        r12.instance("setter:" + g.qname)
+        rq, unp = eng12.analyse(g)
+        for r in rq:
+            lhs, rhs = B.show_lin(r.lhs), B.show_lin(r.rhs)
+            if "num_clients" in lhs:
+                continue        # the control interface's session table: C14.R2's invariant
+            r12.violation(r.origin["key"], "attribute setter %s: write of %s bytes needs %s <= %s, which no check on the path from the setter establishes (chain %s): an "
+                          "over-long value overruns the field" % (g.name, lhs, lhs, rhs, " -> ".join(r.origin["chain"])), loc=r.origin["loc"])
+        for u in unp:
+            r12.violation(u["key"], "attribute setter %s: write not provably within bounds: %s <= %s" % (g.name, u["size"], u["cap"]), loc=u["loc"])
+    npr = sum(1 for k, how, sz, cap in eng12.sink_log if how == "proved")
+    r12.obligations += npr
+    r12.discharged += npr
+    if nset < 20 or npr < 3:
+        raise Broken("C10.R12: %d setters, %d writes proved" % (nset, npr))
+
     # ------------------------------------------------------------ R11
     r11 = ctx.rule("C10.R11", "the joined value of a list attribute (tls.peer_names) is built in a buffer that holds every element, every separator and the terminator")
     check_join_size(P, r11)
